@@ -101,7 +101,7 @@ def solve(
     for k, v in sorted((consts or {}).items()):
         args += ["-c", f"{k}={v}"]
     try:
-        ctl = Control(args, logger=lambda c, m: msgs.append((c, m)))
+        ctl = Control(args, logger=lambda c, m: msgs.append((c, m)), message_limit=100000)
         if isinstance(program, str):
             ctl.add("base", [], program)
         else:
@@ -151,7 +151,7 @@ def grounds(program: Union[str, Sequence[AST]], facts: str = "", consts: Optiona
     for k, v in sorted((consts or {}).items()):
         args += ["-c", f"{k}={v}"]
     try:
-        ctl = Control(args, logger=lambda c, m: msgs.append((c, m)))
+        ctl = Control(args, logger=lambda c, m: msgs.append((c, m)), message_limit=100000)
         if isinstance(program, str):
             ctl.add("base", [], program)
         else:
